@@ -55,6 +55,10 @@ lsearchk_t::result_t lsearchk_t::get(solver_state_t& state, const vector_t& desc
         step_size *= 0.3;
         logger.warn("[lsearchk-", type_id(), "]: t=", step_size, "... initial step length is too large!\n");
     }
+    if (!state.valid())
+    {
+        return {false, step_size};
+    }
 
     // adjust the initial step if the function value is too close (e.g. badly conditioned function)
     for (int i = 0; i < max_iterations && std::fabs(state.fx() - state0.fx()) < epsilon1<scalar_t>(); ++i)
